@@ -33,6 +33,12 @@ pub fn presize_cap(size: usize) -> usize {
 pub fn try_presize_cap(size: usize) -> isize {
     //@EXPR HashMap::try_presize let:requested_capacity
 }
+pub fn treeify_resizes_instead(n: usize) -> bool {
+    //@EXPR HashMap::treeify_bin ifcond~MIN_TREEIFY_CAPACITY#0
+}
+pub fn try_presize_no_resize(size: usize, requested_capacity: isize, size_ctl: isize, current_capactity: usize) -> bool {
+    //@EXPR HashMap::try_presize ifcond~MAXIMUM_CAPACITY#1
+}
 pub fn add_count_new(count: &mut isize, n: isize) -> isize {
     //@EXPR HashMap::add_count let:count#0
 }
@@ -133,6 +139,10 @@ fn cap_ok(size: usize, r: usize) -> bool {
 pub fn h_presize_cap_pow2(s: &mut Src) { let size = s.usize(); let r = presize_cap(size); assert!(is_pow2(r as u64) && r <= 0x4000_0000); }
 //# props=C05,C14
 pub fn h_try_presize_cap_pow2(s: &mut Src) { let size = s.usize(); let r = try_presize_cap(size); assert!(r >= 0 && is_pow2(r as u64) && r <= 0x4000_0000); }
+//# props=C14,C06
+pub fn h_treeify_resizes_instead(s: &mut Src) { let n = s.usize(); assert!(treeify_resizes_instead(n) == (n < 64)); }
+//# props=C14
+pub fn h_try_presize_no_resize(s: &mut Src) { let size = s.usize(); let rc = s.isize(); let sc = s.isize(); let cc = s.usize(); assert!(try_presize_no_resize(size, rc, sc, cc) == (rc <= sc || cc >= 0x4000_0000)); }
 //# props=C14
 pub fn h_presize_cap(s: &mut Src) { let size = s.usize(); assert!(cap_ok(size, presize_cap(size))); }
 //# props=C14
@@ -184,7 +194,7 @@ pub const HARNESSES: &[(&str, fn(&mut Src))] = &[
     ("std_leading_zeros", h_std_leading_zeros), ("std_next_power_of_two", h_std_next_power_of_two), ("std_abs", h_std_abs),
     ("std_cmp_min_max", h_std_cmp_min_max), ("resize_stamp", h_resize_stamp), ("generations_disjoint", h_generations_disjoint),
     ("load_factor", h_load_factor), ("threshold_after_resize", h_threshold_after_resize), ("new_table_len", h_new_table_len),
-    ("presize_cap", h_presize_cap), ("presize_cap_pow2", h_presize_cap_pow2), ("try_presize_cap_pow2", h_try_presize_cap_pow2), ("try_presize_cap", h_try_presize_cap), ("add_count_new", h_add_count_new),
+    ("treeify_resizes_instead", h_treeify_resizes_instead), ("try_presize_no_resize", h_try_presize_no_resize), ("presize_cap", h_presize_cap), ("presize_cap_pow2", h_presize_cap_pow2), ("try_presize_cap_pow2", h_try_presize_cap_pow2), ("try_presize_cap", h_try_presize_cap), ("add_count_new", h_add_count_new),
     ("removal_never_grows", h_removal_never_grows), ("claim", h_claim), ("stride", h_stride),
     ("not_last_resizer", h_not_last_resizer), ("bini_split", h_bini_split),
 ];
@@ -207,6 +217,8 @@ mod harness {
     #[kani::proof] fn presize_cap_pow2() { h_presize_cap_pow2(&mut src()) }
     #[kani::proof] fn try_presize_cap_pow2() { h_try_presize_cap_pow2(&mut src()) }
     #[kani::proof] fn add_count_new() { h_add_count_new(&mut src()) }
+    #[kani::proof] fn treeify_resizes_instead() { h_treeify_resizes_instead(&mut src()) }
+    #[kani::proof] fn try_presize_no_resize() { h_try_presize_no_resize(&mut src()) }
     #[kani::proof] fn removal_never_grows() { h_removal_never_grows(&mut src()) }
     #[kani::proof] fn claim() { h_claim(&mut src()) }
     #[kani::proof] fn stride() { h_stride(&mut src()) }
